@@ -204,6 +204,91 @@ fn run_query_on<R: std::io::Read + std::io::Seek + Clone>(mk: impl Fn() -> R, fi
     }
 }
 
+/// One iterator-like query opened on a source, advanced one public call at a time.
+pub enum Stepper<R> {
+    Cursor(grenad::ReaderCursor<R>, bool),
+    Range(grenad::RangeIter<R>),
+    RevRange(grenad::RevRangeIter<R>),
+    Prefix(grenad::PrefixIter<R>),
+    RevPrefix(grenad::RevPrefixIter<R>),
+}
+
+impl<R: std::io::Read + std::io::Seek> Stepper<R> {
+    /// `None` for queries that are not a sequence of `next` calls (seeks, cloned/reset scans)
+    pub fn open(src: R, q: &Query) -> Result<Option<Stepper<R>>, String> {
+        let e = |e: grenad::Error| format!("error: {e}");
+        let reader = Reader::new(src).map_err(e)?;
+        Ok(Some(match q {
+            Query::Scan { rev, mode: CursorMode::Fresh } => Stepper::Cursor(reader.into_cursor().map_err(e)?, *rev),
+            Query::Range { start, end, rev: false } => Stepper::Range(reader.into_range_iter((start.to_bound(), end.to_bound())).map_err(e)?),
+            Query::Range { start, end, rev: true } => Stepper::RevRange(reader.into_rev_range_iter((start.to_bound(), end.to_bound())).map_err(e)?),
+            Query::Prefix { p, rev: false } => Stepper::Prefix(reader.into_prefix_iter(unhex(p)).map_err(e)?),
+            Query::Prefix { p, rev: true } => Stepper::RevPrefix(reader.into_rev_prefix_iter(unhex(p)).map_err(e)?),
+            _ => return Ok(None),
+        }))
+    }
+
+    pub fn step(&mut self) -> Result<Option<Entry>, String> {
+        let e = |e: grenad::Error| format!("error: {e}");
+        let own = |o: Option<(&[u8], &[u8])>| o.map(|(k, v)| (k.to_vec(), v.to_vec()));
+        Ok(match self {
+            Stepper::Cursor(c, false) => own(c.move_on_next().map_err(e)?),
+            Stepper::Cursor(c, true) => own(c.move_on_prev().map_err(e)?),
+            Stepper::Range(it) => own(it.next().map_err(e)?),
+            Stepper::RevRange(it) => own(it.next().map_err(e)?),
+            Stepper::Prefix(it) => own(it.next().map_err(e)?),
+            Stepper::RevPrefix(it) => own(it.next().map_err(e)?),
+        })
+    }
+}
+
+/// Two iterator-like queries over readers whose sources share ONE file position (what two
+/// `Reader<&File>` or duplicated handles do), advanced alternately: each must still yield what
+/// the model says, since every result is a function of the file and the query only.
+pub fn check_pair_shared_position(bytes: &[u8], m: &Model, qa: &Query, qb: &Query) -> Result<usize, String> {
+    use std::cell::RefCell;
+    let limit = bytes.len() / 2 + 16;
+    let r = guarded(|| -> Result<usize, String> {
+        let shared = crate::c06::SharedPos(std::rc::Rc::new(RefCell::new(std::io::Cursor::new(bytes.to_vec()))));
+        let (Some(mut a), Some(mut b)) = (Stepper::open(shared.clone(), qa)?, Stepper::open(shared.clone(), qb)?) else { return Ok(0) };
+        let (mut out_a, mut out_b) = (Vec::new(), Vec::new());
+        let (mut done_a, mut done_b) = (false, false);
+        while !(done_a && done_b) {
+            if !done_a {
+                match a.step()? {
+                    Some(x) => out_a.push(x),
+                    None => done_a = true,
+                }
+            }
+            if !done_b {
+                match b.step()? {
+                    Some(x) => out_b.push(x),
+                    None => done_b = true,
+                }
+            }
+            if out_a.len() > limit || out_b.len() > limit {
+                return Err("an iterator does not terminate".into());
+            }
+        }
+        for (name, q, out) in [("first", qa, &out_a), ("second", qb, &out_b)] {
+            let want: Vec<Entry> = model_query(m, q).into_iter().map(|i| m.entries[i].clone()).collect();
+            if *out != want {
+                return Err(format!(
+                    "{name} of two alternately advanced iterators whose sources share one file position ({}): yields {} but the model says {}",
+                    q.brief(),
+                    describe_result(out),
+                    describe_result(&want)
+                ));
+            }
+        }
+        Ok(out_a.len() + out_b.len())
+    });
+    match r {
+        Ok(x) => x,
+        Err(p) => Err(p),
+    }
+}
+
 fn start_ok(b: &Bnd, k: &[u8]) -> bool {
     match b {
         Bnd::Unbounded => true,
